@@ -124,11 +124,11 @@ CHECKS = {
     "C09": {
         "level": "fault_enumeration", "floor": 10,
         "rule": "per sampled 2-3 replica history (updates, several updates per commit, melds, resolutions): the baseline run records every storage write; then (crash) a snapshot taken before EVERY write is reopened: it must open, equal the reference model of its causally complete closure, and equal "
-                "a replica opened on exactly that closure; (fault) the history is re-run once for EVERY single failing write position, every pair of consecutive positions and (for commit writes) every triple: a failed commit must leave the staged revisions and the document untouched, the retried commit must produce the same per-step "
+                "a replica opened on exactly that closure; (fault) the history is re-run once for EVERY single failing write position, every pair of consecutive positions and (for commit writes) every triple; runs whose fault hit a commit's block write (orphan pack, pack-less block after the retry) are crash-enumerated again at every later write boundary of every replica: a failed commit must leave the staged revisions and the document untouched, the retried commit must produce the same per-step "
                 "state digests and the same reopened final states as the uninterrupted twin; runs whose fault hit a meld must still reopen to the reference state of their storage. Ordering (pack before block, local writer) is checked on every commit of every engine history, where 6% of the commits also suffer one injected write failure (staging and document must survive, heads must not move). "
                 "non-trivial = faults hit both a pack write and a block write of a commit. distinct = write pattern of the history.",
         "assumptions": ASSUME_COMMON + ["each item write is atomic (fully present or absent), as the property assumes; torn files are C10 damage", "meld copies blocks before packs on the unchanged tree; the property covers that by 'blocks whose dependencies did not arrive are ignored', which the crash monitor decides"],
-        "jobs": [mode("faults", "c09", (256, 6000)), engine("ordering", "general", "any", (320, 12000))],
+        "jobs": [mode("faults", "c09", (160, 4000)), engine("ordering", "general", "any", (320, 12000))],
     },
     "C10": {
         "level": "fault_enumeration", "floor": 10,
